@@ -256,8 +256,8 @@ add('C05-recv-drain-tests-wrong-queue', 'mw2_05', 2, 'C05',
     needs="the reader falling behind until the queue is full, the peer ignoring the zero window and sending the next rcv_wnd sequence numbers, the application reading one message - repeated",
     also=['C04'],
     checks={'C04 quick': "caught: 5 runs, C04/occupancy/rcv-queue-exceeds-window '6 segments await the reader, receive window is 4'",
-            'C05 quick': 'missed (the same occupancy oracle runs there, but the C05 forgers did not combine window-ignoring PUSH floods with a reader that reads one message at a time)'},
-    notes="Caught under C04, whose statement (occupancy never exceeds the windows) it breaks; under C05 it would need a forger that keeps sending beyond a zero window while the victim's application reads slowly. Left as is: the violation is reported by the property that owns the limit.")
+            'C05 quick': "caught: 39 runs, C05/C04-occupancy/rcv-queue-exceeds-window '3 segments await the reader, receive window is 2' (forge-sess 'push-flood', added in response; missed before)"},
+    notes="First evaluation: caught under C04 only. Under C05 the occupancy limits were a foreign signature in the session-level forgery scenario, and no forger kept sending well-formed PUSH segments beyond the window while the application reads at its own pace. forge-sess now does (bursts of up to 600 consecutive sequence numbers), and occupancy beyond the windows counts for C05 there.")
 
 add('C11-stale-close-removes-replacement', 'mw2_11', 1, 'C11',
     "UDPSession.Close calls l.closeSession(s.remote) BEFORE the already-closed guard: a second Close of a session the listener has replaced deletes the REPLACEMENT from the listener's table (deletion is by address)",
